@@ -2,7 +2,7 @@ import StepupModel.Lemmas.EverOutputCreate
 /-!
 # Product rows and their declarations: the declaring requests
 
-The invariant `Inv All A` of `Lemmas/EverOutputBase.lean` through `_declare_file`, `_supply_files`,
+The invariant `Inv O All A` of `Lemmas/EverOutputBase.lean` through `_declare_file`, `_supply_files`,
 `declare_static_files`, `register_static_tree`, `define_step`, `amend_step`: the only place where a file row
 enters a product state is `declareProduct`, for the paths handed to `declareProducts`, which have to be in `A`.
 No property statements here.
@@ -81,8 +81,8 @@ theorem create_keep {s s' : KState} {k : Key} {creator : Option Key} {init : Ini
     · cases h
 
 /-- An update of columns that cleanup does not read (`Node.core`). -/
-theorem inv_modify_core {X : Key → Prop} {A : String → Prop} {s : KState} (k : Key) (f : Node → Node)
-    (hf : ∀ n, (f n).core = n.core) (h : Inv X A s) : Inv X A (s.modify k f) := by
+theorem inv_modify_core {O : Key → Prop} {X : Key → Prop} {A : String → Prop} {s : KState} (k : Key) (f : Node → Node)
+    (hf : ∀ n, (f n).core = n.core) (h : Inv O X A s) : Inv O X A (s.modify k f) := by
   have hkey : ∀ n, (f n).key = n.key := fun n => congrArg (·.1) (hf n)
   refine h.keep (keepX_modify X s k f hkey fun n _ _ _ => ?_) (keysUnique_modify k f (fun n hn => (hkey n).trans hn) h.keys)
   have h2 : (f n).creator = n.creator := congrArg (·.2.1) (hf n)
@@ -101,20 +101,20 @@ theorem declarable_cases {st : FileState} (h : Generated.Enums.declarableStates.
   cases st <;> simp [Generated.Enums.declarableStates] at h ⊢
 
 /-- `Workflow._declare_file`: a product state only for a label of `A` and an owning step or tree. -/
-theorem declareFile_inv {A : String → Prop} (cfg : KConfig) (creator : Key) (p : String) (st : FileState)
-    (hp : IsProduct st → A p ∧ OwnerKind creator) : Preserves (Inv All A) (fun s => s.declareFile cfg creator p st) := by
+theorem declareFile_inv {O : Key → Prop} {A : String → Prop} (cfg : KConfig) (creator : Key) (p : String) (st : FileState)
+    (hp : IsProduct st → A p ∧ O creator) : Preserves (Inv O All A) (fun s => s.declareFile cfg creator p st) := by
   intro s s' hI h
   replace h : s.declareFile cfg creator p st = .ok s' := h
   unfold KState.declareFile at h
-  refine bind_ok_gen h (fun _ => Generated.Enums.declarableStates.contains st = true) ?_ (Inv All A) ?_
+  refine bind_ok_gen h (fun _ => Generated.Enums.declarableStates.contains st = true) ?_ (Inv O All A) ?_
   · intro _ hg
     unfold KState.declareFileGuard at hg
     by_cases hd : Generated.Enums.declarableStates.contains st = true
     · exact hd
     · rw [if_neg hd] at hg; cases hg
   · intro _ s2 hd hh
-    refine bind_ok_gen hh (Inv All A) (fun s1 h1 => ?_) (Inv All A) ?_
-    · refine create_inv (A := A) (k := fileKey p) (creator := some creator) (init := .file st) ?_ s s1 hI h1
+    refine bind_ok_gen hh (Inv O All A) (fun s1 h1 => ?_) (Inv O All A) ?_
+    · refine create_inv (O := O) (A := A) (k := fileKey p) (creator := some creator) (init := .file st) ?_ s s1 hI h1
       refine ⟨rfl, fun hprod => ⟨(hp hprod).1, fun c hc => ?_⟩, fun hu => ?_⟩
       · cases hc; exact (hp hprod).2
       · rcases declarable_cases hd with h' | h' | h' <;> rw [h'] at hu <;> cases hu
@@ -123,21 +123,21 @@ theorem declareFile_inv {A : String → Prop} (cfg : KConfig) (creator : Key) (p
 
 theorem not_product_unconfirmed : ¬ IsProduct FileState.unconfirmed := by decide
 
-theorem declareAll_inv {A : String → Prop} (cfg : KConfig) (todo : List (Key × String)) (st : FileState)
-    (hst : ¬ IsProduct st) : Preserves (Inv All A) (fun s => s.declareAll cfg todo st) := by
+theorem declareAll_inv {O : Key → Prop} {A : String → Prop} (cfg : KConfig) (todo : List (Key × String)) (st : FileState)
+    (hst : ¬ IsProduct st) : Preserves (Inv O All A) (fun s => s.declareAll cfg todo st) := by
   intro s s' hp h
   replace h : s.declareAll cfg todo st = .ok s' := h
   unfold KState.declareAll at h
-  exact foldlM_preserves (Inv All A) (fun (acc : KState) (dp : Key × String) => acc.declareFile cfg dp.1 dp.2 st) todo
+  exact foldlM_preserves (Inv O All A) (fun (acc : KState) (dp : Key × String) => acc.declareFile cfg dp.1 dp.2 st) todo
     (fun dp => declareFile_inv cfg dp.1 dp.2 st (fun hprod => absurd hprod hst)) s s' hp h
 
-theorem declareStaticFiles_inv {A : String → Prop} (cfg : KConfig) (creator : Key) (paths : List String) (s : KState)
-    (r : KState × List String) (hp : Inv All A s) (h : s.declareStaticFiles cfg creator paths = .ok r) : Inv All A r.1 := by
+theorem declareStaticFiles_inv {O : Key → Prop} {A : String → Prop} (cfg : KConfig) (creator : Key) (paths : List String) (s : KState)
+    (r : KState × List String) (hp : Inv O All A s) (h : s.declareStaticFiles cfg creator paths = .ok r) : Inv O All A r.1 := by
   unfold KState.declareStaticFiles at h
-  refine bind_ok_gen h (fun _ => True) (fun _ _ => trivial) (fun r => Inv All A r.1) ?_
+  refine bind_ok_gen h (fun _ => True) (fun _ _ => trivial) (fun r => Inv O All A r.1) ?_
   intro todo r1 _ hh
-  refine bind_ok_gen hh (Inv All A) (fun a ha => declareAll_inv cfg todo _ not_product_unconfirmed s a hp ha)
-    (fun r => Inv All A r.1) ?_
+  refine bind_ok_gen hh (Inv O All A) (fun a ha => declareAll_inv cfg todo _ not_product_unconfirmed s a hp ha)
+    (fun r => Inv O All A r.1) ?_
   intro a b ha hb
   simp only [pure, Except.pure, Except.ok.injEq] at hb
   subst hb; exact ha
@@ -150,9 +150,9 @@ theorem node_unique {s : KState} (hk : KeysUnique s) {n m : Node} (hn : n ∈ s.
   exact (Option.some.inj h1).symm
 
 /-- The plain `UPDATE node SET creator = ?` of `register_static_tree`, on static file rows. -/
-theorem handOver_inv {A : String → Prop} {s : KState} (tk : Key) (hs : List Key) (h : Inv All A s)
+theorem handOver_inv {O : Key → Prop} {A : String → Prop} {s : KState} (tk : Key) (hs : List Key) (h : Inv O All A s)
     (hstatic : ∀ k ∈ hs, ∀ n ∈ s.nodes, n.key = k → n.fstate.role? = some .static) :
-    Inv All A (s.handOver tk hs) := by
+    Inv O All A (s.handOver tk hs) := by
   rw [handOver_nodes]
   have hmem : ∀ n' ∈ (s.nodes.map fun n => if n.key ∈ hs then { n with creator := some tk } else n),
       n' ∈ s.nodes ∨ (n'.fstate.role? = some .static) := by
@@ -184,19 +184,19 @@ theorem handOver_inv {A : String → Prop} {s : KState} (tk : Key) (hs : List Ke
     · exact h.und n' hn hkind trivial hu
     · rw [hu] at hr; cases hr
 
-theorem registerTreeBody_inv {A : String → Prop} (cfg : KConfig) (creator : Key) (path : String) (g : Option (List Key))
-    (s : KState) (r : KState × List String) (hp : Inv All A s)
+theorem registerTreeBody_inv {O : Key → Prop} {A : String → Prop} (cfg : KConfig) (creator : Key) (path : String) (g : Option (List Key))
+    (s : KState) (r : KState × List String) (hp : Inv O All A s)
     (hg : ∀ hs, g = some hs → ∀ k ∈ hs, ∃ n ∈ s.nodes, n.key = k ∧ n.key.kind = .file ∧ n.fstate.role? = some .static)
-    (h : s.registerTreeBody cfg creator path g = .ok r) : Inv All A r.1 := by
+    (h : s.registerTreeBody cfg creator path g = .ok r) : Inv O All A r.1 := by
   cases g with
   | none =>
     simp only [KState.registerTreeBody, pure, Except.pure, Except.ok.injEq] at h
     subst h; exact hp
   | some hs =>
     simp only [KState.registerTreeBody] at h
-    refine bind_ok_gen h (fun s1 => Inv All A s1 ∧ Keep (treeKey path) s s1)
-      (fun s1 h1 => ⟨create_inv (A := A) (k := treeKey path) (creator := some creator) (init := .tree)
-        (by show (treeKey path).kind ≠ .file; intro hh; cases hh) s s1 hp h1, create_keep hp.keys h1⟩) (fun r => Inv All A r.1) ?_
+    refine bind_ok_gen h (fun s1 => Inv O All A s1 ∧ Keep (treeKey path) s s1)
+      (fun s1 h1 => ⟨create_inv (O := O) (A := A) (k := treeKey path) (creator := some creator) (init := .tree)
+        (by show (treeKey path).kind ≠ .file; intro hh; cases hh) s s1 hp h1, create_keep hp.keys h1⟩) (fun r => Inv O All A r.1) ?_
     intro s1 r1 hp1 hh
     refine declareStaticFiles_inv cfg _ _ _ r1 (handOver_inv _ hs hp1.1 ?_) hh
     intro k hk n1 hn1 hn1k
@@ -209,42 +209,42 @@ theorem registerTreeBody_inv {A : String → Prop} (cfg : KConfig) (creator : Ke
     have : n = m := node_unique hp.keys hn hm (by rw [← hrow.1, hn1k, hmk])
     rw [hrow.2.1, this]; exact hmrole
 
-theorem registerStaticTree_inv {A : String → Prop} (cfg : KConfig) (creator : Key) (path : String) (s : KState)
-    (r : KState × List String) (hp : Inv All A s) (h : s.registerStaticTree cfg creator path = .ok r) : Inv All A r.1 := by
+theorem registerStaticTree_inv {O : Key → Prop} {A : String → Prop} (cfg : KConfig) (creator : Key) (path : String) (s : KState)
+    (r : KState × List String) (hp : Inv O All A s) (h : s.registerStaticTree cfg creator path = .ok r) : Inv O All A r.1 := by
   unfold KState.registerStaticTree at h
-  refine bind_ok_gen h (fun _ => True) (fun _ _ => trivial) (fun r => Inv All A r.1) ?_
+  refine bind_ok_gen h (fun _ => True) (fun _ _ => trivial) (fun r => Inv O All A r.1) ?_
   intro _ r1 _ hh
   refine bind_ok_gen hh (fun g => ∀ hs, g = some hs → ∀ k ∈ hs, ∃ n ∈ s.nodes, n.key = k ∧ n.key.kind = .file ∧
-    n.fstate.role? = some .static) (fun g hg hs he => treeGuard_static (he ▸ hg)) (fun r => Inv All A r.1) ?_
+    n.fstate.role? = some .static) (fun g hg hs he => treeGuard_static (he ▸ hg)) (fun r => Inv O All A r.1) ?_
   intro g r2 hg hh2
   exact registerTreeBody_inv cfg creator _ g s r2 hp hg hh2
 
 /-! ## Supplying inputs -/
 
-theorem adoptByTree_inv {A : String → Prop} (cfg : KConfig) (path : String) (t : Key) (s : KState) (r : KState × FileState × Bool)
-    (hp : Inv All A s) (h : s.adoptByTree cfg path t = .ok r) : Inv All A r.1 := by
+theorem adoptByTree_inv {O : Key → Prop} {A : String → Prop} (cfg : KConfig) (path : String) (t : Key) (s : KState) (r : KState × FileState × Bool)
+    (hp : Inv O All A s) (h : s.adoptByTree cfg path t = .ok r) : Inv O All A r.1 := by
   unfold KState.adoptByTree at h
-  refine bind_ok_gen h (fun _ => True) (fun _ _ => trivial) (fun r => Inv All A r.1) ?_
+  refine bind_ok_gen h (fun _ => True) (fun _ _ => trivial) (fun r => Inv O All A r.1) ?_
   intro _ r1 _ hh
-  refine bind_ok_gen hh (Inv All A)
-    (fun s1 h1 => create_inv (A := A) (k := fileKey path) (creator := some t) (init := .file .unconfirmed)
-      ⟨rfl, fun hprod => absurd hprod not_product_unconfirmed, fun hu => by cases hu⟩ s s1 hp h1) (fun r => Inv All A r.1) ?_
+  refine bind_ok_gen hh (Inv O All A)
+    (fun s1 h1 => create_inv (O := O) (A := A) (k := fileKey path) (creator := some t) (init := .file .unconfirmed)
+      ⟨rfl, fun hprod => absurd hprod not_product_unconfirmed, fun hu => by cases hu⟩ s s1 hp h1) (fun r => Inv O All A r.1) ?_
   intro s1 r2 hp1 hh2
   simp only [pure, Except.pure, Except.ok.injEq] at hh2
   subst hh2; exact hp1
 
-theorem placeholder_inv {A : String → Prop} (path : String) (s : KState) (r : KState × FileState × Bool)
-    (hp : Inv All A s) (h : s.placeholder path = .ok r) : Inv All A r.1 := by
+theorem placeholder_inv {O : Key → Prop} {A : String → Prop} (path : String) (s : KState) (r : KState × FileState × Bool)
+    (hp : Inv O All A s) (h : s.placeholder path = .ok r) : Inv O All A r.1 := by
   unfold KState.placeholder at h
-  refine bind_ok_gen h (Inv All A)
-    (fun s1 h1 => create_inv (A := A) (k := fileKey path) (creator := none) (init := .file .undeclared)
-      ⟨rfl, fun hprod => absurd hprod (by decide), fun _ => rfl⟩ s s1 hp h1) (fun r => Inv All A r.1) ?_
+  refine bind_ok_gen h (Inv O All A)
+    (fun s1 h1 => create_inv (O := O) (A := A) (k := fileKey path) (creator := none) (init := .file .undeclared)
+      ⟨rfl, fun hprod => absurd hprod (by decide), fun _ => rfl⟩ s s1 hp h1) (fun r => Inv O All A r.1) ?_
   intro s1 r2 hp1 hh2
   simp only [pure, Except.pure, Except.ok.injEq] at hh2
   subst hh2; exact hp1
 
-theorem resolveWith_inv {A : String → Prop} (cfg : KConfig) (path : String) (tree : Option Key) (node : Option Node) (s : KState)
-    (r : KState × FileState × Bool) (hp : Inv All A s) (h : s.resolveWith cfg path tree node = .ok r) : Inv All A r.1 := by
+theorem resolveWith_inv {O : Key → Prop} {A : String → Prop} (cfg : KConfig) (path : String) (tree : Option Key) (node : Option Node) (s : KState)
+    (r : KState × FileState × Bool) (hp : Inv O All A s) (h : s.resolveWith cfg path tree node = .ok r) : Inv O All A r.1 := by
   cases tree with
   | some t =>
     simp only [KState.resolveWith] at h
@@ -260,23 +260,23 @@ theorem resolveWith_inv {A : String → Prop} (cfg : KConfig) (path : String) (t
       simp only [KState.resolveWith] at h
       split at h
       · exact placeholder_inv path s r hp h
-      · refine bind_ok_gen h (fun _ => True) (fun _ _ => trivial) (fun r => Inv All A r.1) ?_
+      · refine bind_ok_gen h (fun _ => True) (fun _ _ => trivial) (fun r => Inv O All A r.1) ?_
         intro _ r1 _ hh
         simp only [pure, Except.pure, Except.ok.injEq] at hh
         subst hh; exact hp
 
-theorem resolveNode_inv {A : String → Prop} (cfg : KConfig) (path : String) (s : KState) (r : KState × FileState × Bool)
-    (hp : Inv All A s) (h : s.resolveNode cfg path = .ok r) : Inv All A r.1 := by
+theorem resolveNode_inv {O : Key → Prop} {A : String → Prop} (cfg : KConfig) (path : String) (s : KState) (r : KState × FileState × Bool)
+    (hp : Inv O All A s) (h : s.resolveNode cfg path = .ok r) : Inv O All A r.1 := by
   unfold KState.resolveNode at h
-  refine bind_ok_gen h (fun _ => True) (fun _ _ => trivial) (fun r => Inv All A r.1) ?_
+  refine bind_ok_gen h (fun _ => True) (fun _ _ => trivial) (fun r => Inv O All A r.1) ?_
   intro tree r1 _ hh
   exact resolveWith_inv cfg path tree _ s r1 hp hh
 
-theorem resolveSupply_inv {A : String → Prop} (cfg : KConfig) (step : Key) (path : String) (rn : Bool) (s : KState)
-    (r : KState × Supply) (hp : Inv All A s) (h : s.resolveSupply cfg step path rn = .ok r) : Inv All A r.1 := by
+theorem resolveSupply_inv {O : Key → Prop} {A : String → Prop} (cfg : KConfig) (step : Key) (path : String) (rn : Bool) (s : KState)
+    (r : KState × Supply) (hp : Inv O All A s) (h : s.resolveSupply cfg step path rn = .ok r) : Inv O All A r.1 := by
   unfold KState.resolveSupply at h
-  refine bind_ok_gen h (fun a => Inv All A a.1) (fun a ha => resolveNode_inv cfg path s a hp ha)
-    (fun r => Inv All A r.1) ?_
+  refine bind_ok_gen h (fun a => Inv O All A a.1) (fun a ha => resolveNode_inv cfg path s a hp ha)
+    (fun r => Inv O All A r.1) ?_
   intro a r1 ha hh
   obtain ⟨s1, state, detached⟩ := a
   simp only at hh
@@ -285,38 +285,38 @@ theorem resolveSupply_inv {A : String → Prop} (cfg : KConfig) (step : Key) (pa
   · simp only [pure, Except.pure, bind, Except.bind, Except.ok.injEq] at hh
     subst hh; exact ha
 
-theorem resolveAll_inv {A : String → Prop} (cfg : KConfig) (step : Key) (paths : List String) (rn : Bool) (s : KState)
-    (r : KState × List Supply) (hp : Inv All A s) (h : s.resolveAll cfg step paths rn = .ok r) : Inv All A r.1 := by
+theorem resolveAll_inv {O : Key → Prop} {A : String → Prop} (cfg : KConfig) (step : Key) (paths : List String) (rn : Bool) (s : KState)
+    (r : KState × List Supply) (hp : Inv O All A s) (h : s.resolveAll cfg step paths rn = .ok r) : Inv O All A r.1 := by
   unfold KState.resolveAll at h
-  refine foldlM_inv (fun (a : KState × List Supply) => Inv All A a.1) _ paths ?_ (s, []) r hp h
+  refine foldlM_inv (fun (a : KState × List Supply) => Inv O All A a.1) _ paths ?_ (s, []) r hp h
   intro a x b ha hb
-  refine bind_ok_gen hb (fun c => Inv All A c.1) (fun c hc => resolveSupply_inv cfg step x rn a.1 c ha hc)
-    (fun r => Inv All A r.1) ?_
+  refine bind_ok_gen hb (fun c => Inv O All A c.1) (fun c hc => resolveSupply_inv cfg step x rn a.1 c ha hc)
+    (fun r => Inv O All A r.1) ?_
   intro c d hc hd
   obtain ⟨s', i⟩ := c
   simp only [pure, Except.pure, Except.ok.injEq] at hd
   subst hd; exact hc
 
-theorem insertNewEdges_inv {A : String → Prop} (step : Key) (infos : List Supply) :
-    Preserves (Inv All A) (fun s => s.insertNewEdges step infos) := by
+theorem insertNewEdges_inv {O : Key → Prop} {A : String → Prop} (step : Key) (infos : List Supply) :
+    Preserves (Inv O All A) (fun s => s.insertNewEdges step infos) := by
   intro s s' hp h
   replace h : s.insertNewEdges step infos = .ok s' := h
   unfold KState.insertNewEdges at h
-  exact foldlM_preserves (Inv All A) (fun (st : KState) (i : Supply) => st.insertDep i.file step) _
+  exact foldlM_preserves (Inv O All A) (fun (st : KState) (i : Supply) => st.insertDep i.file step) _
     (fun i => insertDep_inv i.file step) s s' hp h
 
-theorem supplyFiles_inv {A : String → Prop} (cfg : KConfig) (step : Key) (paths : List String) (rn : Bool) (s : KState)
-    (r : KState × List Supply) (hp : Inv All A s) (h : s.supplyFiles cfg step paths rn = .ok r) : Inv All A r.1 := by
+theorem supplyFiles_inv {O : Key → Prop} {A : String → Prop} (cfg : KConfig) (step : Key) (paths : List String) (rn : Bool) (s : KState)
+    (r : KState × List Supply) (hp : Inv O All A s) (h : s.supplyFiles cfg step paths rn = .ok r) : Inv O All A r.1 := by
   unfold KState.supplyFiles at h
-  refine bind_ok_gen h (fun a => Inv All A a.1) (fun a ha => resolveAll_inv cfg step paths rn s a hp ha)
-    (fun r => Inv All A r.1) ?_
+  refine bind_ok_gen h (fun a => Inv O All A a.1) (fun a ha => resolveAll_inv cfg step paths rn s a hp ha)
+    (fun r => Inv O All A r.1) ?_
   intro a r1 ha hh
   obtain ⟨s1, infos⟩ := a
   simp only at hh
   split at hh
   · simp [bind, Except.bind, throw, throwThe, MonadExceptOf.throw] at hh
   · simp only [pure, Except.pure, bind, Except.bind] at hh
-    refine bind_ok_gen hh (Inv All A) (fun s2 h2 => insertNewEdges_inv step infos s1 s2 ha h2) (fun r => Inv All A r.1) ?_
+    refine bind_ok_gen hh (Inv O All A) (fun s2 h2 => insertNewEdges_inv step infos s1 s2 ha h2) (fun r => Inv O All A r.1) ?_
     intro s2 r2 hp2 hh2
     simp only [pure, Except.pure, Except.ok.injEq] at hh2
     subst hh2; exact hp2
@@ -344,7 +344,7 @@ theorem addSourceChecked_ownerKind {s s' : KState} {a : Key} {p : String}
   · simp only [pure, Except.pure, bind, Except.bind] at h
     exact insertDep_ownerKind h
 
-theorem addSourceChecked_inv {A : String → Prop} (a b : Key) : Preserves (Inv All A) (fun s => s.addSourceChecked a b) := by
+theorem addSourceChecked_inv {O : Key → Prop} {A : String → Prop} (a b : Key) : Preserves (Inv O All A) (fun s => s.addSourceChecked a b) := by
   intro s s' hp h
   replace h : s.addSourceChecked a b = .ok s' := h
   unfold KState.addSourceChecked at h
@@ -355,8 +355,9 @@ theorem addSourceChecked_inv {A : String → Prop} (a b : Key) : Preserves (Inv 
 
 /-- `_declare_file` + `file.add_source(step)`: accepted only for a step or tree, and then the label
 has to be in `A` when the state is a product state. -/
-theorem declareProduct_inv {A : String → Prop} (cfg : KConfig) (step : Key) (p : String) (st : FileState)
-    (hp : IsProduct st → A p) : Preserves (Inv All A) (fun s => s.declareProduct cfg step p st) := by
+theorem declareProduct_inv {O : Key → Prop} {A : String → Prop} (cfg : KConfig) (step : Key) (p : String) (st : FileState)
+    (ho : OwnerKind step → O step) (hp : IsProduct st → A p) :
+    Preserves (Inv O All A) (fun s => s.declareProduct cfg step p st) := by
   intro s s' hI h
   replace h : s.declareProduct cfg step p st = .ok s' := h
   unfold KState.declareProduct at h
@@ -366,34 +367,35 @@ theorem declareProduct_inv {A : String → Prop} (cfg : KConfig) (step : Key) (p
   | ok s1 =>
     simp only [h1] at h
     have hown := addSourceChecked_ownerKind h
-    exact addSourceChecked_inv _ _ s1 s' (declareFile_inv cfg step p st (fun hprod => ⟨hp hprod, hown⟩) s s1 hI h1) h
+    exact addSourceChecked_inv _ _ s1 s' (declareFile_inv cfg step p st (fun hprod => ⟨hp hprod, ho hown⟩) s s1 hI h1) h
 
-theorem declareProducts_inv {A : String → Prop} (cfg : KConfig) (step : Key) (ps : List String) (st : FileState)
-    (hp : ∀ p ∈ ps, A p) : Preserves (Inv All A) (fun s => s.declareProducts cfg step ps st) := by
+theorem declareProducts_inv {O : Key → Prop} {A : String → Prop} (cfg : KConfig) (step : Key) (ps : List String) (st : FileState)
+    (ho : OwnerKind step → O step) (hp : ∀ p ∈ ps, A p) :
+    Preserves (Inv O All A) (fun s => s.declareProducts cfg step ps st) := by
   intro s s' hI h
   replace h : s.declareProducts cfg step ps st = .ok s' := h
   unfold KState.declareProducts at h
-  exact foldlM_inv_mem (Inv All A) (fun (acc : KState) (p : String) => acc.declareProduct cfg step p st) ps
-    (fun p hpm s1 s2 h1 h2 => declareProduct_inv cfg step p st (fun _ => hp p hpm) s1 s2 h1 h2) s s' hI h
+  exact foldlM_inv_mem (Inv O All A) (fun (acc : KState) (p : String) => acc.declareProduct cfg step p st) ps
+    (fun p hpm s1 s2 h1 h2 => declareProduct_inv cfg step p st ho (fun _ => hp p hpm) s1 s2 h1 h2) s s' hI h
 
 /-! ## `define_step` -/
 
-theorem setStepExtras_inv {A : String → Prop} (s : KState) (sk : Key) (d : StepDecl) (hp : Inv All A s) :
-    Inv All A (s.setStepExtras sk d) := inv_modify_core _ _ (fun _ => rfl) hp
+theorem setStepExtras_inv {O : Key → Prop} {A : String → Prop} (s : KState) (sk : Key) (d : StepDecl) (hp : Inv O All A s) :
+    Inv O All A (s.setStepExtras sk d) := inv_modify_core _ _ (fun _ => rfl) hp
 
-theorem afterRecycle_inv {A : String → Prop} (sk : Key) (d : StepDecl) (n : Node) :
-    Preserves (Inv All A) (fun s => s.afterRecycle sk d n) := by
+theorem afterRecycle_inv {O : Key → Prop} {A : String → Prop} (sk : Key) (d : StepDecl) (n : Node) :
+    Preserves (Inv O All A) (fun s => s.afterRecycle sk d n) := by
   intro s s' hp h
   replace h : s.afterRecycle sk d n = .ok s' := h
   unfold KState.afterRecycle at h
-  have hp2 : Inv All A (s.modify sk fun n => { n with need := d.need, shell := d.shell, holding := 0 }) :=
+  have hp2 : Inv O All A (s.modify sk fun n => { n with need := d.need, shell := d.shell, holding := 0 }) :=
     inv_modify_core _ _ (fun _ => rfl) hp
   split at h
   · exact Inv.of_soft (fun s0 => markStepPending'_soft sk) _ s' hp2 h
   · simp only [pure, Except.pure, Except.ok.injEq] at h; subst h; exact hp2
 
-theorem recycleStep_inv {A : String → Prop} (sk creator : Key) (d : StepDecl) (n : Node) (hsk : sk.kind ≠ .file) :
-    Preserves (Inv All A) (fun s => s.recycleStep sk creator d n) := by
+theorem recycleStep_inv {O : Key → Prop} {A : String → Prop} (sk creator : Key) (d : StepDecl) (n : Node) (hsk : sk.kind ≠ .file) :
+    Preserves (Inv O All A) (fun s => s.recycleStep sk creator d n) := by
   intro s s' hp h
   replace h : s.recycleStep sk creator d n = .ok s' := h
   unfold KState.recycleStep at h
@@ -411,60 +413,60 @@ theorem addEnvDeps_core (cfg : KConfig) (names : List String) : ∀ n : Node, (a
   | nil => intro n; rfl
   | cons x xs ih => intro n; simp only [List.foldl_cons]; exact (ih _).trans rfl
 
-theorem createStep_inv {A : String → Prop} (cfg : KConfig) (sk creator : Key) (d : StepDecl) (s : KState)
-    (r : KState × List String) (hsk : sk.kind ≠ .file) (hout : ∀ p ∈ d.out, A p) (hvol : ∀ p ∈ d.vol, A p)
-    (hp : Inv All A s) (h : s.createStep cfg sk creator d = .ok r) : Inv All A r.1 := by
+theorem createStep_inv {O : Key → Prop} {A : String → Prop} (cfg : KConfig) (sk creator : Key) (d : StepDecl) (s : KState)
+    (r : KState × List String) (hsk : sk.kind ≠ .file) (ho : OwnerKind sk → O sk) (hout : ∀ p ∈ d.out, A p) (hvol : ∀ p ∈ d.vol, A p)
+    (hp : Inv O All A s) (h : s.createStep cfg sk creator d = .ok r) : Inv O All A r.1 := by
   unfold KState.createStep at h
-  refine bind_ok_gen h (Inv All A) (fun s1 h1 => create_inv (A := A) (k := sk) (creator := some creator)
-    (init := .step _) hsk s s1 hp h1) (fun r => Inv All A r.1) ?_
+  refine bind_ok_gen h (Inv O All A) (fun s1 h1 => create_inv (O := O) (A := A) (k := sk) (creator := some creator)
+    (init := .step _) hsk s s1 hp h1) (fun r => Inv O All A r.1) ?_
   intro s1 r1 hp1 hh
-  have hp2 : Inv All A (s1.setStepExtras sk d) := setStepExtras_inv _ _ _ hp1
-  refine bind_ok_gen hh (fun a => Inv All A a.1) (fun a ha => supplyFiles_inv cfg sk d.inp true _ a hp2 ha)
-    (fun r => Inv All A r.1) ?_
+  have hp2 : Inv O All A (s1.setStepExtras sk d) := setStepExtras_inv _ _ _ hp1
+  refine bind_ok_gen hh (fun a => Inv O All A a.1) (fun a ha => supplyFiles_inv cfg sk d.inp true _ a hp2 ha)
+    (fun r => Inv O All A r.1) ?_
   intro a r2 ha hh2
   obtain ⟨s3, infos⟩ := a
   simp only at hh2
-  have hp4 : Inv All A (s3.modify sk fun n => addEnvDeps cfg n d.env) :=
+  have hp4 : Inv O All A (s3.modify sk fun n => addEnvDeps cfg n d.env) :=
     inv_modify_core _ _ (fun n => addEnvDeps_core cfg d.env n) ha
-  refine bind_ok_gen hh2 (Inv All A) (fun s5 h5 => declareProducts_inv cfg sk d.out .planned hout _ s5 hp4 h5)
-    (fun r => Inv All A r.1) ?_
+  refine bind_ok_gen hh2 (Inv O All A) (fun s5 h5 => declareProducts_inv cfg sk d.out .planned ho hout _ s5 hp4 h5)
+    (fun r => Inv O All A r.1) ?_
   intro s5 r3 hp5 hh3
-  refine bind_ok_gen hh3 (Inv All A) (fun s6 h6 => declareProducts_inv cfg sk d.vol .volatile hvol _ s6 hp5 h6)
-    (fun r => Inv All A r.1) ?_
+  refine bind_ok_gen hh3 (Inv O All A) (fun s6 h6 => declareProducts_inv cfg sk d.vol .volatile ho hvol _ s6 hp5 h6)
+    (fun r => Inv O All A r.1) ?_
   intro s6 r4 hp6 hh4
   simp only [pure, Except.pure, Except.ok.injEq] at hh4
   subst hh4; exact hp6
 
 /-- `Workflow.define_step`: the declared outputs and volatile outputs have to be in `A`. -/
-theorem defineStep_inv {A : String → Prop} (cfg : KConfig) (creator : Key) (d : StepDecl) (s : KState)
-    (r : KState × List String) (hout : ∀ p ∈ normPaths d.out, A p) (hvol : ∀ p ∈ normPaths d.vol, A p)
-    (hp : Inv All A s) (h : s.defineStep cfg creator d = .ok r) : Inv All A r.1 := by
+theorem defineStep_inv {O : Key → Prop} {A : String → Prop} (cfg : KConfig) (creator : Key) (d : StepDecl) (s : KState)
+    (r : KState × List String) (hstep : ∀ c, c.kind = .step → O c) (hout : ∀ p ∈ normPaths d.out, A p)
+    (hvol : ∀ p ∈ normPaths d.vol, A p) (hp : Inv O All A s) (h : s.defineStep cfg creator d = .ok r) : Inv O All A r.1 := by
   unfold KState.defineStep at h
-  refine bind_ok_gen h (fun sk => sk.kind = .step) (fun sk hg => Discipline.defineGuard_kind hg) (fun r => Inv All A r.1) ?_
+  refine bind_ok_gen h (fun sk => sk.kind = .step) (fun sk hg => Discipline.defineGuard_kind hg) (fun r => Inv O All A r.1) ?_
   intro sk r1 hsk hh
   have hskf : sk.kind ≠ .file := by rw [hsk]; intro hh; cases hh
   split at hh
   · split at hh
-    · refine bind_ok_gen hh (Inv All A) (fun s1 h1 => recycleStep_inv sk creator _ _ hskf s s1 hp h1) (fun r => Inv All A r.1) ?_
+    · refine bind_ok_gen hh (Inv O All A) (fun s1 h1 => recycleStep_inv sk creator _ _ hskf s s1 hp h1) (fun r => Inv O All A r.1) ?_
       intro s1 r2 hp1 hh2
       simp only [pure, Except.pure, Except.ok.injEq] at hh2
       subst hh2; exact hp1
-    · refine bind_ok_gen hh (fun _ => True) (fun _ _ => trivial) (fun r => Inv All A r.1) ?_
+    · refine bind_ok_gen hh (fun _ => True) (fun _ _ => trivial) (fun r => Inv O All A r.1) ?_
       intro _ r2 _ hh2
-      exact createStep_inv cfg sk creator _ s r2 hskf hout hvol hp hh2
-  · refine bind_ok_gen hh (fun _ => True) (fun _ _ => trivial) (fun r => Inv All A r.1) ?_
+      exact createStep_inv cfg sk creator _ s r2 hskf (fun _ => hstep sk hsk) hout hvol hp hh2
+  · refine bind_ok_gen hh (fun _ => True) (fun _ _ => trivial) (fun r => Inv O All A r.1) ?_
     intro _ r2 _ hh2
-    exact createStep_inv cfg sk creator _ s r2 hskf hout hvol hp hh2
+    exact createStep_inv cfg sk creator _ s r2 hskf (fun _ => hstep sk hsk) hout hvol hp hh2
 
 /-! ## `amend_step` -/
 
-theorem setDynamic_inv {A : String → Prop} (s : KState) (a b : Key) (d : Bool) (hp : Inv All A s) : Inv All A (s.setDynamic a b d) := by
+theorem setDynamic_inv {O : Key → Prop} {A : String → Prop} (s : KState) (a b : Key) (d : Bool) (hp : Inv O All A s) : Inv O All A (s.setDynamic a b d) := by
   unfold KState.setDynamic
   refine inv_modify_core _ _ (fun n => ?_) (hp.nodes rfl)
   split <;> rfl
 
-theorem markDynamic_inv {A : String → Prop} (s : KState) (edges : List (Key × Key)) (hp : Inv All A s) :
-    Inv All A (s.markDynamic edges) := by
+theorem markDynamic_inv {O : Key → Prop} {A : String → Prop} (s : KState) (edges : List (Key × Key)) (hp : Inv O All A s) :
+    Inv O All A (s.markDynamic edges) := by
   unfold KState.markDynamic
   induction edges generalizing s with
   | nil => exact hp
@@ -511,83 +513,83 @@ theorem newProducts_sub (s : KState) (step : Key) (role : FileRole) (paths r : L
     cases v <;> simp [hc, pure, Except.pure] at hab
     exact hab.symm
 
-theorem amendProducts_inv {A : String → Prop} (cfg : KConfig) (step : Key) (infos : List Supply) (env out vol : List String)
-    (conc : List Key) (s1 : KState) (r : KState × AmendResult) (hout : ∀ p ∈ normPaths out, A p)
-    (hvol : ∀ p ∈ normPaths vol, A p) (ha : Inv All A s1)
-    (hh : s1.amendProducts cfg step infos env out vol conc = .ok r) : Inv All A r.1 := by
+theorem amendProducts_inv {O : Key → Prop} {A : String → Prop} (cfg : KConfig) (step : Key) (infos : List Supply) (env out vol : List String)
+    (conc : List Key) (s1 : KState) (r : KState × AmendResult) (ho : OwnerKind step → O step) (hout : ∀ p ∈ normPaths out, A p)
+    (hvol : ∀ p ∈ normPaths vol, A p) (ha : Inv O All A s1)
+    (hh : s1.amendProducts cfg step infos env out vol conc = .ok r) : Inv O All A r.1 := by
   unfold KState.amendProducts at hh
-  have hp2 : Inv All A (s1.amendEnv cfg step env) := ha.soft (amendEnv_rel s1 cfg step env)
+  have hp2 : Inv O All A (s1.amendEnv cfg step env) := ha.soft (amendEnv_rel s1 cfg step env)
   refine bind_ok_gen hh (fun out' => ∀ p ∈ out', A p)
-    (fun out' ho p hp => hout p (newProducts_sub _ step .output _ out' ho p hp)) (fun r => Inv All A r.1) ?_
+    (fun out' ho p hp => hout p (newProducts_sub _ step .output _ out' ho p hp)) (fun r => Inv O All A r.1) ?_
   intro out' r2 hout' hh2
   refine bind_ok_gen hh2 (fun vol' => ∀ p ∈ vol', A p)
-    (fun vol' hv p hp => hvol p (newProducts_sub _ step .volatile _ vol' hv p hp)) (fun r => Inv All A r.1) ?_
+    (fun vol' hv p hp => hvol p (newProducts_sub _ step .volatile _ vol' hv p hp)) (fun r => Inv O All A r.1) ?_
   intro vol' r3 hvol' hh3
-  refine bind_ok_gen hh3 (fun _ => True) (fun _ _ => trivial) (fun r => Inv All A r.1) ?_
+  refine bind_ok_gen hh3 (fun _ => True) (fun _ _ => trivial) (fun r => Inv O All A r.1) ?_
   intro _ r4 _ hh4
-  refine bind_ok_gen hh4 (fun _ => True) (fun _ _ => trivial) (fun r => Inv All A r.1) ?_
+  refine bind_ok_gen hh4 (fun _ => True) (fun _ _ => trivial) (fun r => Inv O All A r.1) ?_
   intro _ r5 _ hh5
-  refine bind_ok_gen hh5 (Inv All A) (fun s3 h3 => declareProducts_inv cfg step out' .planned hout' _ s3 hp2 h3)
-    (fun r => Inv All A r.1) ?_
+  refine bind_ok_gen hh5 (Inv O All A) (fun s3 h3 => declareProducts_inv cfg step out' .planned ho hout' _ s3 hp2 h3)
+    (fun r => Inv O All A r.1) ?_
   intro s3 r6 hp3 hh6
-  refine bind_ok_gen hh6 (Inv All A) (fun s4 h4 => declareProducts_inv cfg step vol' .volatile hvol' _ s4 hp3 h4)
-    (fun r => Inv All A r.1) ?_
+  refine bind_ok_gen hh6 (Inv O All A) (fun s4 h4 => declareProducts_inv cfg step vol' .volatile ho hvol' _ s4 hp3 h4)
+    (fun r => Inv O All A r.1) ?_
   intro s4 r7 hp4 hh7
   simp only [pure, Except.pure, Except.ok.injEq] at hh7
   subst hh7
   exact markDynamic_inv _ _ hp4
 
 /-- `Workflow.amend_step`: the amended outputs and volatile outputs have to be in `A`. -/
-theorem amendStep_inv {A : String → Prop} (cfg : KConfig) (step : Key) (inp env out vol : List String) (conc : List Key)
-    (s : KState) (r : KState × AmendResult) (hout : ∀ p ∈ normPaths out, A p) (hvol : ∀ p ∈ normPaths vol, A p)
-    (hp : Inv All A s) (h : s.amendStep cfg step inp env out vol conc = .ok r) : Inv All A r.1 := by
+theorem amendStep_inv {O : Key → Prop} {A : String → Prop} (cfg : KConfig) (step : Key) (inp env out vol : List String) (conc : List Key)
+    (s : KState) (r : KState × AmendResult) (ho : OwnerKind step → O step) (hout : ∀ p ∈ normPaths out, A p)
+    (hvol : ∀ p ∈ normPaths vol, A p) (hp : Inv O All A s) (h : s.amendStep cfg step inp env out vol conc = .ok r) : Inv O All A r.1 := by
   unfold KState.amendStep at h
-  refine bind_ok_gen h (fun _ => True) (fun _ _ => trivial) (fun r => Inv All A r.1) ?_
+  refine bind_ok_gen h (fun _ => True) (fun _ _ => trivial) (fun r => Inv O All A r.1) ?_
   intro _ r0 _ h0
-  refine bind_ok_gen h0 (fun a => Inv All A a.1) (fun a ha => supplyFiles_inv cfg step _ false s a hp ha)
-    (fun r => Inv All A r.1) ?_
+  refine bind_ok_gen h0 (fun a => Inv O All A a.1) (fun a ha => supplyFiles_inv cfg step _ false s a hp ha)
+    (fun r => Inv O All A r.1) ?_
   intro a r1 ha hh
   obtain ⟨s1, infos⟩ := a
-  exact amendProducts_inv cfg step infos env out vol conc s1 r1 hout hvol ha hh
+  exact amendProducts_inv cfg step infos env out vol conc s1 r1 ho hout hvol ha hh
 
 /-! ## `declare_static` -/
 
-theorem registerNglobs_inv {A : String → Prop} (creator : Key) (patterns : List (String × List String)) :
-    Preserves (Inv All A) (fun s => s.registerNglobs creator patterns) := by
+theorem registerNglobs_inv {O : Key → Prop} {A : String → Prop} (creator : Key) (patterns : List (String × List String)) :
+    Preserves (Inv O All A) (fun s => s.registerNglobs creator patterns) := by
   intro s s' hp h
   replace h : s.registerNglobs creator patterns = .ok s' := h
   unfold KState.registerNglobs at h
-  exact foldlM_preserves (Inv All A) (fun (st : KState) (pm : String × List String) => st.registerNglob creator pm.1 pm.2)
+  exact foldlM_preserves (Inv O All A) (fun (st : KState) (pm : String × List String) => st.registerNglob creator pm.1 pm.2)
     patterns (fun pm => Inv.of_soft (fun s0 => registerNglob_soft creator pm.1 pm.2)) s s' hp h
 
-theorem registerTrees_inv {A : String → Prop} (cfg : KConfig) (creator : Key) (trees : List String) (s : KState)
-    (r : KState × List String) (hp : Inv All A s) (h : s.registerTrees cfg creator trees = .ok r) : Inv All A r.1 := by
+theorem registerTrees_inv {O : Key → Prop} {A : String → Prop} (cfg : KConfig) (creator : Key) (trees : List String) (s : KState)
+    (r : KState × List String) (hp : Inv O All A s) (h : s.registerTrees cfg creator trees = .ok r) : Inv O All A r.1 := by
   unfold KState.registerTrees at h
-  refine foldlM_inv (fun (a : KState × List String) => Inv All A a.1) _ trees ?_ (s, []) r hp h
+  refine foldlM_inv (fun (a : KState × List String) => Inv O All A a.1) _ trees ?_ (s, []) r hp h
   intro a x b ha hb
-  refine bind_ok_gen hb (fun c => Inv All A c.1) (fun c hc => registerStaticTree_inv cfg creator x a.1 c ha hc)
-    (fun r => Inv All A r.1) ?_
+  refine bind_ok_gen hb (fun c => Inv O All A c.1) (fun c hc => registerStaticTree_inv cfg creator x a.1 c ha hc)
+    (fun r => Inv O All A r.1) ?_
   intro c d hc hd
   obtain ⟨s', chk⟩ := c
   simp only [pure, Except.pure, Except.ok.injEq] at hd
   subst hd; exact hc
 
-theorem declareStaticRequest_inv {A : String → Prop} (cfg : KConfig) (creator : Key) (trees files : List String)
-    (patterns : List (String × List String)) (s : KState) (r : KState × List String) (hp : Inv All A s)
-    (h : s.declareStaticRequest cfg creator trees files patterns = .ok r) : Inv All A r.1 := by
+theorem declareStaticRequest_inv {O : Key → Prop} {A : String → Prop} (cfg : KConfig) (creator : Key) (trees files : List String)
+    (patterns : List (String × List String)) (s : KState) (r : KState × List String) (hp : Inv O All A s)
+    (h : s.declareStaticRequest cfg creator trees files patterns = .ok r) : Inv O All A r.1 := by
   unfold KState.declareStaticRequest at h
-  refine bind_ok_gen h (fun a => Inv All A a.1) (fun a ha => registerTrees_inv cfg creator trees s a hp ha)
-    (fun r => Inv All A r.1) ?_
+  refine bind_ok_gen h (fun a => Inv O All A a.1) (fun a ha => registerTrees_inv cfg creator trees s a hp ha)
+    (fun r => Inv O All A r.1) ?_
   intro a r1 ha hh
   obtain ⟨s1, chk1⟩ := a
   simp only at hh
-  refine bind_ok_gen hh (fun a => Inv All A a.1) (fun a h2 => declareStaticFiles_inv cfg creator files s1 a ha h2)
-    (fun r => Inv All A r.1) ?_
+  refine bind_ok_gen hh (fun a => Inv O All A a.1) (fun a h2 => declareStaticFiles_inv cfg creator files s1 a ha h2)
+    (fun r => Inv O All A r.1) ?_
   intro a2 r2 ha2 hh2
   obtain ⟨s2, chk2⟩ := a2
   simp only at hh2
-  refine bind_ok_gen hh2 (Inv All A) (fun s3 h3 => registerNglobs_inv creator patterns s2 s3 ha2 h3)
-    (fun r => Inv All A r.1) ?_
+  refine bind_ok_gen hh2 (Inv O All A) (fun s3 h3 => registerNglobs_inv creator patterns s2 s3 ha2 h3)
+    (fun r => Inv O All A r.1) ?_
   intro s3 r3 hp3 hh3
   simp only [pure, Except.pure, Except.ok.injEq] at hh3
   subst hh3; exact hp3
